@@ -234,7 +234,7 @@ func TestC10(t *testing.T) {
 	curProp = "C10"
 	r := vf.NewRec("C10")
 	defer r.Finish(t)
-	guard.StartWatchdog(*vf.Out, "C10")
+	guard.StartWatchdog(*vf.Out, vf.Label("C10"))
 
 	for _, rf := range r.LoadReplays(t) {
 		var c caseC10
